@@ -44,6 +44,51 @@ def _entry_id(item):
         return repr(item)
 
 
+def _entry_req(item):
+    try:
+        r = item[0]
+        return [r[0], r[1]]
+    except Exception:
+        return None
+
+
+class LLock(_sched.SLock):
+    """scheduler (R)Lock whose outermost acquire / release are written to the effect log"""
+
+    def __init__(self, instr, name, reentrant=True):
+        super().__init__(instr.s, name, reentrant)
+        self.instr = instr
+
+    def acquire(self, blocking=True, timeout=-1):
+        r = super().acquire(blocking, timeout)
+        if r and self.depth == 1:
+            self.instr.ev('lk.acq', self.name)
+        return r
+
+    def release(self):
+        outer = self.depth == 1
+        super().release()
+        if outer:
+            self.instr.ev('lk.rel', self.name)
+
+    __enter__ = acquire
+
+    def __exit__(self, *exc):
+        self.release()
+        return False
+
+
+def llock_factory(instr, names):
+    """`RLock` stand-in: locks are named from `names` in creation order (then RLock<n>)"""
+    count = [0]
+
+    def RLock():
+        n = count[0]
+        count[0] += 1
+        return LLock(instr, names[n] if n < len(names) else f'RLock{n}')
+    return RLock
+
+
 class LQueue(_sched.SQueue):
     def __init__(self, instr, maxsize, name):
         super().__init__(instr.s, maxsize, name)
@@ -56,16 +101,16 @@ class LQueue(_sched.SQueue):
             if not isinstance(e, _sched.SchedAbort):
                 self.instr.ev('q.put.fail', self.name, _entry_id(item), type(e).__name__)
             raise
-        self.instr.ev('q.put', self.name, _entry_id(item))
+        self.instr.ev('q.put', self.name, _entry_id(item), _entry_req(item))
 
     def get(self, block=True, timeout=None):
         try:
             item = super().get(block, timeout)
         except BaseException as e:
             if not isinstance(e, _sched.SchedAbort):
-                self.instr.ev('q.get.fail', self.name, type(e).__name__)
+                self.instr.ev('q.get.fail', self.name, type(e).__name__, bool(block))
             raise
-        self.instr.ev('q.get', self.name, _entry_id(item))
+        self.instr.ev('q.get', self.name, _entry_id(item), bool(block))
         return item
 
 
